@@ -292,7 +292,7 @@ fn lowrank_rank0(report: &mut Report, seed: u64, idx: u64) {
 
 fn hostile(rng: &mut HRng, class: u64, n: usize, d: usize, sane: &[Vec<f64>]) -> Vec<Vec<f64>> {
     let mut w: Vec<Vec<f64>> = sane.to_vec();
-    match class % 10 {
+    match class % 12 {
         0 => {} // sane
         1 => {
             // constant column(s)
@@ -343,6 +343,14 @@ fn hostile(rng: &mut HRng, class: u64, n: usize, d: usize, sane: &[Vec<f64>]) ->
                 r[c] = f64::NAN
             }
         }
+        10 | 11 => {
+            // one column far outside the clamp of the scale estimate but far from overflow
+            let c = rng.below(d as u64) as usize;
+            let f = if class % 12 == 10 { 10f64.powf(rng.range(11.0, 40.0)) } else { 10f64.powf(rng.range(-40.0, -11.0)) };
+            for r in w.iter_mut() {
+                r[c] *= f
+            }
+        }
         _ => {
             // wild magnitudes everywhere
             for r in w.iter_mut() {
@@ -356,7 +364,7 @@ fn hostile(rng: &mut HRng, class: u64, n: usize, d: usize, sane: &[Vec<f64>]) ->
 }
 
 fn class_name(c: u64) -> &'static str {
-    ["sane", "constant_column", "all_zero", "huge_column", "tiny_column", "one_nan", "one_inf", "identical_rows", "nan_column", "wild_magnitudes"][(c % 10) as usize]
+    ["sane", "constant_column", "all_zero", "huge_column", "tiny_column", "one_nan", "one_inf", "identical_rows", "nan_column", "wild_magnitudes", "large_column", "small_column"][(c % 12) as usize]
 }
 
 fn robust_case(report: &mut Report, seed: u64, idx: u64) {
@@ -365,7 +373,7 @@ fn robust_case(report: &mut Report, seed: u64, idx: u64) {
     let lowrank = idx % 2 == 1;
     let d = 1 + rng.below(if lowrank { 12 } else { 50 }) as usize;
     let n = 3 + rng.below(30) as usize;
-    let (cd, cg) = ((idx / 2) % 10, (idx / 20) % 10);
+    let (cd, cg) = ((idx / 2) % 12, (idx / 24) % 12);
     let sigma: Vec<f64> = (0..d).map(|_| rng.log_range(0.1, 10.0)).collect();
     let mu: Vec<f64> = (0..d).map(|_| rng.range(-2.0, 2.0)).collect();
     let sane_x: Vec<Vec<f64>> = (0..n).map(|_| (0..d).map(|i| mu[i] + sigma[i] * rng.normal()).collect()).collect();
@@ -437,6 +445,33 @@ fn robust_case(report: &mut Report, seed: u64, idx: u64) {
             if !after.2.is_finite() {
                 report.violation(format!("C08:{which}:logdet_not_finite"), format!("window {tag}: logdet {}", after.2), replay.clone());
                 return;
+            }
+            // whatever the window, the scale and its inverse describe one bijection (also where the estimate is clamped)
+            for i in 0..d {
+                if !((after.0[i] * after.1[i] - 1.0).abs() <= 1e-9) {
+                    report.violation(
+                        format!("C08:{which}:inverse_scale_inconsistent"),
+                        format!("window {tag} (d {d}, n {n}): std[{i}] = {:e} but inv_std[{i}] = {:e} (product {:e})", after.0[i], after.1[i], after.0[i] * after.1[i]),
+                        replay.clone(),
+                    );
+                    return;
+                }
+                if !lowrank && (after.0[i] <= 1.0000001e-10 || after.0[i] >= 0.9999999e10) {
+                    report.count("clamped_scales_observed", 1);
+                }
+            }
+            for (i, (a, b)) in after.3.iter().zip(after.4.iter()).enumerate() {
+                if !((a * b - 1.0).abs() <= 1e-9) {
+                    report.violation(format!("C08:{which}:inverse_scale_inconsistent"), format!("window {tag}: eigenvalue scale {i}: {a:e} x {b:e} != 1"), replay.clone());
+                    return;
+                }
+            }
+            if !lowrank {
+                let want: f64 = after.1.iter().map(|x| x.ln()).sum();
+                if !((after.2 - want).abs() <= 1e-9 * (1.0 + want.abs())) {
+                    report.violation("C08:diag:logdet_inconsistent", format!("window {tag}: logdet {} vs sum ln inv_std {want}", after.2), replay.clone());
+                    return;
+                }
             }
             // an invalid estimate keeps the previous value: diag per coordinate, low rank as a whole
             if !lowrank {
@@ -540,7 +575,7 @@ fn end_to_end(report: &mut Report, seed: u64, idx: u64) {
 pub fn run(args: &Args, report: &mut Report) {
     report.rule = "estimators driven directly (hook): diagonal exactness on diagonal Gaussians (d 1..50, cond up to 1e12 in variance, any placement of \
         3..42 points), low-rank exactness on dense Gaussians (d 1..20, more points than dimensions, full rank retained), hostile windows \
-        (10 classes for draws x 10 for gradients: constant / zero / 1e+-300 / NaN / inf / identical rows / wild magnitudes) for both estimators, \
+        (12 classes for draws x 12 for gradients: constant / zero / 1e+-300 / NaN / inf / identical rows / wild magnitudes / one column beyond the clamp of the scale estimate) for both estimators, \
         each after a sane window; end to end: adapted chains with store_transformed on Gaussians; distinct = (component, dim bucket, classes)".into();
     report.assumptions.push("low-rank exactness is checked with eigval_cutoff = 1 and gamma = 1e-12 (every direction retained, negligible regularisation): with the default cutoff the estimator deliberately ignores eigenvalues in [1/2, 2]".into());
     report.assumptions.push("a hang is declared after 60 s on a helper thread".into());
